@@ -98,6 +98,9 @@ def _decorator_names(fn: ast.FunctionDef) -> List[str]:
     return out
 
 
+NORMAL_FORM_BY_DEFAULT = True
+
+
 class Repo:
     def __init__(self, root: Optional[Path] = None):
         self.root = Path(root) if root else repo_root()
@@ -402,10 +405,22 @@ class Repo:
         self.consulted[r[0].file.rel] = r[0].file.sha256
         return r[0], r[2]
 
-    def own_method(self, ci: ClassInfo, name: str) -> ast.FunctionDef:
+    def own_method(self, ci: ClassInfo, name: str, raw: bool = False) -> ast.FunctionDef:
+        """The method as the rules read it: in normal form (private helpers inlined, constant tables unrolled, struct objects and
+        named integer constants written out — see sa/inline.py).  `raw=True` gives the definition as written."""
         if name not in ci.methods:
             raise AnchorMissing(f"method {ci.qualname}.{name} not defined on the class")
-        return ci.methods[name]
+        if raw or not NORMAL_FORM_BY_DEFAULT:
+            return ci.methods[name]
+        cache = self.__dict__.setdefault("_nf_cache", {})
+        key = (id(ci), name)
+        if key not in cache:
+            from . import inline
+            try:
+                cache[key] = inline.normalize(self, ci, ci.methods[name])
+            except Exception:
+                cache[key] = ci.methods[name]
+        return cache[key]
 
     def getter(self, ci: ClassInfo, name: str) -> Tuple[ClassInfo, ast.FunctionDef]:
         r = self.lookup(ci, name)
